@@ -235,7 +235,7 @@ func fieldOfChan(ch ssa.Value) string {
 	}
 	if ld, ok := v.(*ssa.UnOp); ok && ld.Op == token.MUL {
 		if fa, ok := ld.X.(*ssa.FieldAddr); ok {
-			return fieldName(fa.X.Type(), fa.Field)
+			return canonChanField(fa.X.Type(), fieldName(fa.X.Type(), fa.Field))
 		}
 	}
 	// a local that holds the channel until it is disabled (announce := iter.waiting; ...; announce = nil): the channel of its
@@ -598,4 +598,71 @@ func reachingStores(cell *ssa.Alloc, at ssa.Instruction) []*ssa.Store {
 		}
 	}
 	return []*ssa.Store{last}
+}
+
+
+var chanFieldAliasMemo = map[string]string{}
+
+// canonChanField: a struct may keep the same channel in two fields of different direction (senderDone <-chan struct{} to wait
+// on, closeSender chan<- struct{} to close): when a literal of the type sets two channel fields from one value, the field
+// the pinned tree does not know is an alias of the one it knows.
+func canonChanField(t types.Type, field string) string {
+	nt, ok := derefType(t).(*types.Named)
+	if !ok || curCtx == nil || nt.Obj().Pkg() == nil {
+		return field
+	}
+	key := nt.Obj().Pkg().Path() + "." + nt.Obj().Name() + "." + field
+	if a, ok := chanFieldAliasMemo[key]; ok {
+		return a
+	}
+	chanFieldAliasMemo[key] = field
+	rel := strings.TrimPrefix(strings.TrimPrefix(nt.Obj().Pkg().Path(), modPath), "/")
+	known := map[string]bool{}
+	for _, lf := range pinnedLayout[rel][canonTypeName(rel, nt.Obj().Name())] {
+		known[lf.Name] = true
+	}
+	if known[field] || len(known) == 0 {
+		return field
+	}
+	// literals of the type: field -> value
+	for _, fn := range curCtx.Funcs {
+		if rootFn(fn).Pkg == nil || rootFn(fn).Pkg.Pkg != nt.Obj().Pkg() {
+			continue
+		}
+		byAlloc := map[ssa.Value]map[string]ssa.Value{}
+		instrs(fn, func(_ *ssa.BasicBlock, _ int, in ssa.Instruction) {
+			st, ok := in.(*ssa.Store)
+			if !ok {
+				return
+			}
+			fa, ok := st.Addr.(*ssa.FieldAddr)
+			if !ok {
+				return
+			}
+			n2, ok := derefType(fa.X.Type()).(*types.Named)
+			if !ok || n2.Origin() != nt.Origin() {
+				return
+			}
+			if _, isChan := derefType(fa.Type()).Underlying().(*types.Chan); !isChan {
+				return
+			}
+			if byAlloc[fa.X] == nil {
+				byAlloc[fa.X] = map[string]ssa.Value{}
+			}
+			byAlloc[fa.X][fieldName(fa.X.Type(), fa.Field)] = resolveVal(stripChange(st.Val))
+		})
+		for _, fields := range byAlloc {
+			mine, has := fields[field]
+			if !has {
+				continue
+			}
+			for f2, v2 := range fields {
+				if f2 != field && known[f2] && v2 == mine {
+					chanFieldAliasMemo[key] = f2
+					return f2
+				}
+			}
+		}
+	}
+	return field
 }
